@@ -812,6 +812,18 @@ func (cc *caseCtx) encHandshake(cl *sclient) error {
 	}
 }
 
+// encOrFail: a valid auth message must be answered. false: the case must end.
+func (cc *caseCtx) encOrFail(cl *sclient) bool {
+	err := cc.encHandshake(cl)
+	if cc.aborted {
+		return false
+	}
+	if err != nil {
+		cc.c.Failf("C15/server/valid-handshake-refused", "a valid auth message of %s was refused: %v\n  %s", cl.name, err, cc.story())
+	}
+	return true
+}
+
 func (cc *caseCtx) goodHS(cl *sclient) wProtoHS {
 	return wProtoHS{Version: 4, Name: "c15-" + cl.name, Caps: []p2p.Cap{{Name: "eth", Version: protoVersion}}, ListenPort: 0, ID: cl.id}
 }
@@ -857,6 +869,9 @@ func (cc *caseCtx) connectPeer(name string, key *ecdsa.PrivateKey, honest bool) 
 	cc.c.Checkpoint()
 	if err := cc.encHandshake(cl); err != nil {
 		cl.close(false)
+		if cc.aborted {
+			return nil, ""
+		}
 		return cl, fmt.Sprintf("encryption handshake: %v", err)
 	}
 	cl.startReader()
@@ -1542,8 +1557,8 @@ func (cc *caseCtx) scPreEnc() {
 		}
 	case "auth-trickle":
 		cl.tap.chunk = c.Int("pre.chunk", 1, 40)
-		if err := cc.encHandshake(cl); err != nil {
-			c.Failf("C15/server/valid-handshake-refused", "a valid auth message written in pieces of %d bytes was refused: %v", cl.tap.chunk, err)
+		if !cc.encOrFail(cl) {
+			return
 		}
 		cl.tap.chunk = 0
 		cc.passed = true
@@ -1565,14 +1580,14 @@ func (cc *caseCtx) scPreEnc() {
 		}
 		cc.note("hostile writes a valid auth message in small pieces and goes on honestly: served")
 	case "auth-then-close":
-		if err := cc.encHandshake(cl); err != nil {
-			c.Failf("C15/server/valid-handshake-refused", "a valid auth message was refused: %v", err)
+		if !cc.encOrFail(cl) {
+			return
 		}
 		cc.passed = true
 		cc.note("hostile completes the encryption handshake and goes away")
 	case "auth-then-garbage":
-		if err := cc.encHandshake(cl); err != nil {
-			c.Failf("C15/server/valid-handshake-refused", "a valid auth message was refused: %v", err)
+		if !cc.encOrFail(cl) {
+			return
 		}
 		cc.passed = true
 		b := pseudo(cc.seed, 15, c.Int("pre.glen", 32, 200))
@@ -1645,8 +1660,8 @@ func (cc *caseCtx) hostileAfterEnc(name string, key *ecdsa.PrivateKey) *sclient 
 		return nil
 	}
 	cc.c.Checkpoint()
-	if err := cc.encHandshake(cl); err != nil {
-		cc.c.Failf("C15/server/valid-handshake-refused", "a valid auth message of %s was refused: %v\n  %s", name, err, cc.story())
+	if !cc.encOrFail(cl) {
+		return nil
 	}
 	cc.passed = true
 	cl.startReader()
@@ -2061,7 +2076,20 @@ func (cc *caseCtx) scBase() {
 			cc.note("#%d frame header announcing %d bytes, nothing follows", i, sz)
 			return
 		case "oversize-sub":
-			code := uint64(subOff + c.Int(l+".code", 0, 8))
+			// BlockHashes first: a list of hashes is what that code carries, so only the size is wrong
+			code := subOff + []uint64{codeBlockHashes, codeNewBlockHashes, codeGetBlocks, codeStatus, codeTx, codeGetBlockHashes, codeBlocks, codeNewBlock, codeGetBlockHashesFrom}[c.Weighted(l+".code", 6, 2, 1, 1, 1, 1, 1, 1, 1)]
+			if !cl.statusOK && c.Weighted(l+".statusFirst", 1, 3) == 1 {
+				// past the sub-protocol handshake the size check of the message loop is the only one
+				_ = cl.send(txBytes(subOff+codeStatus, mustEnc(cc.statusOf(0, cc.env.genesis))))
+				if r := cc.barrier(cl, "a valid status"); r != wOK {
+					if r == wTimeout {
+						cc.inconclusive("status before the oversized message: no outcome")
+						return
+					}
+					c.Failf("C15/server/valid-handshake-refused", "a valid status was refused: %s %v\n  %s", discReasonOf(cl.snapshot(0)), cl.readErr(), cc.story())
+				}
+				cl.statusOK = true
+			}
 			n := uint64(exactCapHashes + 1 + c.Int(l+".extra", 0, 20000))
 			hsr := newHashStream(n, cc.seed, nil)
 			err := cl.send(srvTx{code: code, size: uint32(hsr.total()), payload: hsr})
@@ -2508,6 +2536,9 @@ func (cc *caseCtx) scDupID() {
 		if err := cc.encHandshake(cl); err != nil {
 			cc.note("%s: encryption handshake: %v", name, err)
 			cl.close(false)
+			if cc.aborted {
+				return nil, false
+			}
 			return cl, false
 		}
 		cc.passed = true
@@ -2567,8 +2598,8 @@ func (cc *caseCtx) scDupID() {
 			if cl == nil {
 				return
 			}
-			if err := cc.encHandshake(cl); err != nil {
-				c.Failf("C15/server/valid-handshake-refused", "a valid auth message was refused: %v", err)
+			if !cc.encOrFail(cl) {
+				return
 			}
 			cl.startReader()
 			cls = append(cls, cl)
@@ -2617,8 +2648,8 @@ func (cc *caseCtx) scHalfOpen() {
 		case "few-partial-auth":
 			_, _ = cl.fd.Write(makeAuth(cl.key, cc.env.id)[:c.Int(fmt.Sprintf("ho.cut%d", i), 1, hsEncAuthLen-1)])
 		case "few-after-enc":
-			if err := cc.encHandshake(cl); err != nil {
-				c.Failf("C15/server/valid-handshake-refused", "a valid auth message was refused: %v", err)
+			if !cc.encOrFail(cl) {
+				return
 			}
 			cc.passed = true
 		}
